@@ -294,7 +294,13 @@ func (f *focusHandler) buildPath() bool {
 
 	ok := f.childHasFocus(f.lastFrame)
 
-	if f.root != f.lastFrame.Widget || len(f.path) == 0 {
+	switch {
+	case !ok && f.focused != nil && f.focused != f.root:
+		// The focused widget is not part of the last frame (it has been
+		// given the focus before it was drawn): it is the target, and
+		// the root still captures and gets what bubbles up
+		f.path = []Widget{f.focused, f.root}
+	case f.root != f.lastFrame.Widget || len(f.path) == 0:
 		// Make sure that we always add the original root widget as the
 		// last node. We will reverse the list, making this widget the
 		// first one with the opportunity to capture events
